@@ -97,10 +97,23 @@ where
     #[allow(clippy::needless_continue)]
     fn poll_next(self: Pin<&mut Self>, cx: &mut Context<'_>) -> Poll<Option<Self::Item>> {
         let fair_queue = self.get_mut();
+        // How many streams may still be polled in this call. A stream is allowed to signal
+        // readiness again while it is being polled and then return `Pending` - a yield; tokio's
+        // I/O resources do exactly that once the task's cooperative budget is used up. Such
+        // events must not be served in this same call forever: after every stream has had its
+        // turn we go back to the executor (and ask to be polled again), which is what lets a
+        // yielding stream make progress.
+        let mut polls_left: Option<usize> = None;
         loop {
             let (event, mut io_stream) = {
                 let mut inner = fair_queue.inner.lock();
                 inner.waker = Some(cx.waker().clone());
+                let left = polls_left.get_or_insert(inner.streams.len() + 1);
+                if *left == 0 && !inner.ready_queue.is_empty() {
+                    cx.waker().wake_by_ref();
+                    return Poll::Pending;
+                }
+                *left = left.saturating_sub(1);
                 let event = match inner.ready_queue.pop() {
                     Some(s) => s,
                     None => {
